@@ -186,7 +186,7 @@ def tryDigits (x ax : F64) (neg : Bool) (a b : Nat) (d17 : Nat) (k17 : Int) (n :
   let lo := d17 / 10 ^ (17 - n)
   let hi := lo + 1
   let ok := fun (c : Nat) =>
-    c != 0 && roundDec false c k == ax && parseDec (signed neg (renderF c k)) == some (some x)
+    c != 0 && roundDec false c k == ax && parseFloat (signed neg (renderF c k)) == some (some x)
   let okLo := ok lo
   let okHi := ok hi
   if okLo && okHi then
